@@ -15,6 +15,7 @@ import Proofs.C16.SilentPaymentsGroups
 import Proofs.C16.Reductions
 import Proofs.C16.EciesExample
 import Proofs.E2E.C16Uncond
+import Proofs.C16.XOnlyDh
 /-!
 # C16 — property theorems only (see DESIGN.md §3 C16).
 
@@ -197,6 +198,21 @@ theorem ecdh_symmetric (L : LawfulGroup o G) (kdf : Bytes → R Bytes) (a b : In
 theorem ecdh_symmetric_base (L : LawfulGroup o G) (kdf : Bytes → R Bytes) (a b : Int) (P : α) :
     diffieHellman o kdf a (o.mul b P) = diffieHellman o kdf b (o.mul a P) :=
   LG.dh_symmetric_base L kdf a b P
+
+/-- **T5 (x-only ECDH: the multiplication inside `ellswift.xdh`).** `xOnlyDh q x` = `mult(q, (x, y_even(x)))[0]`, the group
+step of BIP324's `xdh` (a SPECIFICATION-side definition, `Proofs/C16/XOnlyDh.lean`: no driver op runs it; `ellswift.xdh`
+itself is compared between the two arms and checked by the `ellswift.*` oracles on the real code).  For secrets
+`a, b ∈ 1..n-1`, party A lifting `x(b•G)` and party B lifting `x(a•G)` compute the same x-coordinate `x(ab•G)`, and
+neither fails — both parities of both public keys.  With `decode(encode Q).x = Q.x` (ElligatorSwift round trip: below,
+partial) both parties hash the same preimage `ell_a ‖ ell_b ‖ x`. -/
+theorem ecdh_xonly_symmetric (L : Lawful o G) (a b : Int) (ha : 0 < a ∧ a < o.n) (hb : 0 < b ∧ b < o.n) :
+    xOnlyDh o a (o.x (o.mul b o.gen)) = xOnlyDh o b (o.x (o.mul a o.gen)) ∧
+    xOnlyDh o a (o.x (o.mul b o.gen)) = some (o.x (o.mul a (o.mul b o.gen))) :=
+  xOnlyDh_symmetric L a b ha hb
+
+/-- on ℤ/3 (`Proofs/C12/Toy.lean`, `Lawful` proved): secrets 1 and 2 -/
+example : xOnlyDh ToyEx.T 1 (ToyEx.T.x (ToyEx.T.mul 2 ToyEx.T.gen)) = some 5 ∧
+    xOnlyDh ToyEx.T 2 (ToyEx.T.x (ToyEx.T.mul 1 ToyEx.T.gen)) = some 5 := by decide +kernel
 
 /-! ## DLEQ (BIP374) -/
 
